@@ -266,6 +266,9 @@ func pureArg(x ast.Expr) bool {
 	case *ast.UnaryExpr:
 		return v.Op == token.AND && pureArg(v.X)
 	case *ast.CallExpr:
+		if id, ok := v.Fun.(*ast.Ident); ok && (id.Name == "len" || id.Name == "cap") && len(v.Args) == 1 {
+			return pureArg(v.Args[0])
+		}
 		// a getter without arguments on a pure receiver (claim.GetEventNonce(), msg.GetSigner())
 		if se, ok := v.Fun.(*ast.SelectorExpr); ok && len(v.Args) == 0 && pureArg(se.X) {
 			n := se.Sel.Name
